@@ -50,6 +50,9 @@ func nillable(typ types.Type) bool {
 	switch t := typ.(type) {
 	case *types.Pointer, *types.Array, *types.Map, *types.Interface, *types.Signature, *types.Chan, *types.Slice:
 		return true
+	case *types.Basic:
+		// unsafe.Pointer is the one basic type that has nil as a value.
+		return t.Kind() == types.UnsafePointer
 	case *types.Named, *types.Alias, *types.TypeParam:
 		return nillable(t.Underlying())
 	}
